@@ -216,6 +216,7 @@ type HarnessRun struct {
 	pool          *asyncPool
 	syncAsserts   bool
 	timeoutMS     int
+	solverBin     string
 	workers       int
 	panicIsViolation bool
 	terminationChecked bool
@@ -315,7 +316,7 @@ func (e *Engine) Explore(h *HarnessRun) {
 	}
 
 	if !h.syncAsserts {
-		h.pool = newAsyncPool(8, envOr("SYMGO_SOLVER", "z3-new"), h.timeoutMS, h.Mode == ModeReal)
+		h.pool = newAsyncPool(8, h.solverName(), h.timeoutMS, h.Mode == ModeReal)
 		h.pool.nlsatFirst = h.Params["nlsatFirst"] == 1
 	}
 	var mu sync.Mutex
@@ -328,7 +329,7 @@ func (e *Engine) Explore(h *HarnessRun) {
 	var witness []InputRec
 
 	worker := func() {
-		solver := NewSolver(envOr("SYMGO_SOLVER", "z3-new"), h.timeoutMS)
+		solver := NewSolver(h.solverName(), h.timeoutMS)
 		solver.nra = h.Mode == ModeReal
 		solver.nlsatFirst = h.Params["nlsatFirst"] == 1
 		defer solver.Close()
@@ -526,4 +527,14 @@ func (m *Machine) runPath(fn *ssa.Function, prefix []int) (PathStatus, string, [
 	m.unknownLabels = nil
 	m.solver.PopAll()
 	return status, msg, wit
+}
+
+func (h *HarnessRun) solverName() string {
+	if v := os.Getenv("SYMGO_SOLVER"); v != "" {
+		return v
+	}
+	if h.solverBin != "" {
+		return h.solverBin
+	}
+	return "z3-new"
 }
